@@ -39,7 +39,11 @@ def cname(n):
 
 
 def fname(n):
-    return "g_" + n.lstrip("_")
+    # methods are named  Class.method  or  Class.method@setter
+    base = n.split(".")[-1]
+    if base.endswith("@setter"):
+        base = base[:-7].lstrip("_") + "_setter"
+    return "g_" + base.lstrip("_")
 
 
 def ty_coq(t):
@@ -73,7 +77,7 @@ def ty_coq(t):
         return "CL"
     if isinstance(t, tuple) and t[0] == "record":
         return t[4] if len(t) > 4 else "(%s F L)" % t[1]
-    if isinstance(t, tuple) and t[0] == "dict":
+    if isinstance(t, tuple) and t[0] in ("dict", "ddict"):
         return "(list (Z * %s))" % ty_coq(t[1])
     if t == "unit":
         return "unit"
@@ -106,7 +110,8 @@ def ann_type(node, overrides, key):
 class Fn:
     """translation of one function"""
 
-    def __init__(self, mod, node, sigs, overrides, externs=None):
+    def __init__(self, mod, node, sigs, overrides, externs=None, key=None):
+        self.key = key or node.name    # Class.method[@setter] for methods
         self.loop_k = []               # continuations that end the current iteration of the enclosing loops
         self.while_depth = 0
         self.uses_fuel = False
@@ -168,7 +173,11 @@ class Fn:
         if isinstance(e, ast.Attribute):
             b, c, t = self.expr(e.value, env)
             if isinstance(t, tuple) and t[0] == "record" and e.attr in t[2]:
-                return b, "(%s %s)" % (t[3] + e.attr, c), t[2][e.attr]
+                ft = t[2][e.attr]
+                if isinstance(ft, tuple) and ft[0] == "alias":
+                    # a read-only property that returns another field
+                    return b, "(%s %s)" % (t[3] + ft[1], c), t[2][ft[1]]
+                return b, "(%s %s)" % (t[3] + e.attr, c), ft
             if t == ("list", "F") and e.attr == "size":
                 return b, "(py_len %s)" % c, "int"
             if t == "MAT" and e.attr == "T" and "np_matmul" in self.externs:
@@ -201,12 +210,21 @@ class Fn:
             raise Unsupported("unary %s" % ast.unparse(e))
         if isinstance(e, ast.BinOp):
             return self.binop(e, env)
+        if isinstance(e, ast.Compare) and len(e.ops) == 1 and isinstance(e.ops[0], (ast.Is, ast.IsNot)) \
+                and ast.unparse(e.comparators[0]) == "None":
+            b1, c1, t1 = self.expr(e.left, env)
+            if isinstance(t1, tuple) and t1[0] == "list":
+                # a value typed as a list is not None (the typing of the field is part of the rendering)
+                return b1, ("false" if isinstance(e.ops[0], ast.Is) else "true"), "bool"
+            raise Unsupported("None test on %s" % (t1,))
         if isinstance(e, ast.Compare):
             if len(e.ops) != 1:
                 raise Unsupported("chained comparison")
             b1, c1, t1 = self.expr(e.left, env)
             b2, c2, t2 = self.expr(e.comparators[0], env)
             op = type(e.ops[0])
+            if op in (ast.NotEq, ast.Eq) and t1 == ("list", "int") and t2 == ("list", "int"):
+                return b1 + b2, ("(negb (py_list_eqb %s %s))" if op is ast.NotEq else "(py_list_eqb %s %s)") % (c1, c2), "bool"
             if t1 == "arr2" and t2 == "F" and op in (ast.Lt, ast.Gt):
                 return b1 + b2, ("(arr2_map (fun a_ => fltb %s %s) %s)" % (("a_", c2, c1) if op is ast.Lt else (c2, "a_", c1))), "mask2"
             if t1 == ("list", "F") and t2 in ("F", "int") and op is ast.Lt:
@@ -381,6 +399,11 @@ class Fn:
             if t1 == ("list", "int") and t2 == ("list", "int"):
                 v = self.fresh()
                 return b + b1 + b2 + [(v, "lam_take2 %s %s %s" % (c, c1, c2))], v, ("list", "F")
+        if isinstance(t, tuple) and t[0] == "ddict" and not isinstance(sl, (ast.Slice, ast.Tuple)):
+            bi, ci, ti = self.expr(sl, env)
+            if ti != "int":
+                raise Unsupported("defaultdict lookup %s" % ast.unparse(e))
+            return b + bi, "(py_ddict_get %s %s)" % (c, ci), t[1]
         if isinstance(t, tuple) and t[0] == "dict" and not isinstance(sl, (ast.Slice, ast.Tuple)):
             bi, ci, ti = self.expr(sl, env)
             if ti != "int" or t[1] is None:
@@ -606,6 +629,12 @@ class Fn:
             b1, c1, t1 = self.expr(e.args[0], env)
             if t1 == "arr2":
                 return b1, "(np_mean_rows %s)" % c1, ("list", "F")
+        if fn == "sorted" and len(e.args) == 1 and not e.keywords:
+            b, c, t = self.expr(e.args[0], env)
+            if t == ("list", "int"):
+                return b, "(py_sorted %s)" % c, t
+        if fn == "collections.defaultdict" and len(e.args) == 1 and not e.keywords and ast.unparse(e.args[0]) == "list":
+            return [], "[]", ("ddict", ("list", "int"))
         if fn == "isinstance" and len(e.args) == 2 and not e.keywords:
             b, c, t = self.expr(e.args[0], env)
             cls = ast.unparse(e.args[1])
@@ -700,6 +729,14 @@ class Fn:
             code = "%s <- %s ;;\n  %s" % (pat, m, code)
         return code
 
+    @staticmethod
+    def setters_of(rt_):
+        return rt_[5] if isinstance(rt_, tuple) and len(rt_) > 5 else {}
+
+    @staticmethod
+    def methods_of(rt_):
+        return rt_[6] if isinstance(rt_, tuple) and len(rt_) > 6 else {}
+
     # ------------------------------------------------------------ statements
     def assigned(self, stmts):
         """names (re)bound by a block"""
@@ -720,6 +757,9 @@ class Fn:
                             add(x.id)
                     elif isinstance(t, ast.Attribute) and isinstance(t.value, ast.Name):
                         add(t.value.id)
+                    elif isinstance(t, ast.Attribute) and isinstance(t.value, ast.Subscript) and isinstance(t.value.value, ast.Attribute) \
+                            and isinstance(t.value.value.value, ast.Name):
+                        add(t.value.value.value.id)
                     else:
                         raise Unsupported("assignment target %s" % ast.unparse(t))
             elif isinstance(s, ast.AugAssign) and isinstance(s.target, ast.Name):
@@ -863,12 +903,37 @@ class Fn:
                 return self.wrap(b, "let %s := (a_rows %s) in\n  let %s := (a_cols %s) in\n  %s" % (
                     cname(tgt.elts[0].id), c, cname(tgt.elts[1].id), c, nxt(env2)))
             if isinstance(tgt, ast.Attribute) and isinstance(tgt.value, ast.Name) and isinstance(env.get(tgt.value.id), tuple) \
+                    and env[tgt.value.id][0] == "record" and tgt.attr in self.setters_of(env[tgt.value.id]):
+                # x.prop = v  where prop has a translated setter: the setter is called
+                a = tgt.value.id
+                bv, cv, tv = self.expr(s.value, env)
+                return self.wrap(bv, "%s <- %s %s %s ;;\n  %s" % (cname(a), fname(self.setters_of(env[a])[tgt.attr]), cname(a), cv, nxt(env)))
+            if isinstance(tgt, ast.Attribute) and isinstance(tgt.value, ast.Subscript) and isinstance(tgt.value.value, ast.Attribute) \
+                    and isinstance(tgt.value.value.value, ast.Name) and isinstance(env.get(tgt.value.value.value.id), tuple) \
+                    and env[tgt.value.value.value.id][0] == "record":
+                # x.items[i].prop = v : fetch element i, call its setter, store it back (functional update of x)
+                a = tgt.value.value.value.id
+                rt_ = env[a]
+                fld = tgt.value.value.attr
+                ft = rt_[2].get(fld)
+                if not (isinstance(ft, tuple) and ft[0] == "list" and isinstance(ft[1], tuple) and ft[1][0] == "record"
+                        and tgt.attr in self.setters_of(ft[1])):
+                    raise Unsupported("store %s" % ast.unparse(tgt))
+                bi, ci, ti = self.expr(tgt.value.slice, env)
+                bv, cv, tv = self.expr(s.value, env)
+                if ti != "int":
+                    raise Unsupported("index type")
+                e1, e2, e3 = self.fresh(), self.fresh(), self.fresh()
+                return self.wrap(bi + bv, "%s <- py_getitem (%s%s %s) %s ;;\n  %s <- %s %s %s ;;\n  %s <- py_set_index (%s%s %s) %s %s ;;\n  let %s := (set_%s%s %s %s) in\n  %s" % (
+                    e1, rt_[3], fld, cname(a), ci, e2, fname(self.setters_of(ft[1])[tgt.attr]), e1, cv,
+                    e3, rt_[3], fld, cname(a), ci, e2, cname(a), rt_[3], fld, cname(a), e3, nxt(env)))
+            if isinstance(tgt, ast.Attribute) and isinstance(tgt.value, ast.Name) and isinstance(env.get(tgt.value.id), tuple) \
                     and env[tgt.value.id][0] == "record" and tgt.attr in env[tgt.value.id][2]:
                 # x.f = v on a local record value: functional update (the record is referenced through this name only)
                 a = tgt.value.id
                 rt_ = env[a]
                 bv, cv, tv = self.expr(s.value, env)
-                if repr(tv) != repr(rt_[2][tgt.attr]):
+                if repr(tv) != repr(rt_[2][tgt.attr]) and not (tv == ("list", None) and isinstance(rt_[2][tgt.attr], tuple) and rt_[2][tgt.attr][0] == "list"):
                     raise Unsupported("field store type %s into %s" % (tv, rt_[2][tgt.attr]))
                 return self.wrap(bv, "let %s := (set_%s%s %s %s) in\n  %s" % (cname(a), rt_[3], tgt.attr, cname(a), cv, nxt(env)))
             if isinstance(tgt, ast.Subscript) and isinstance(tgt.value, ast.Name) and tgt.value.id in env:
@@ -939,6 +1004,12 @@ class Fn:
             # l[i].append(v) on a list of lists
             a = s.value.func.value.value.id
             ta = env[a]
+            if isinstance(ta, tuple) and ta[0] == "ddict":
+                bi, ci, ti = self.expr(s.value.func.value.slice, env)
+                bv, cv, tv = self.expr(s.value.args[0], env)
+                if ti != "int" or repr(("list", tv)) != repr(ta[1]):
+                    raise Unsupported("defaultdict append types")
+                return self.wrap(bi + bv, "let %s := (py_ddict_append %s %s %s) in\n  %s" % (cname(a), cname(a), ci, cv, nxt(env)))
             if not (isinstance(ta, tuple) and ta[0] == "list" and isinstance(ta[1], tuple) and ta[1][0] == "list"):
                 raise Unsupported("nested append on %s" % (ta,))
             bi, ci, ti = self.expr(s.value.func.value.slice, env)
@@ -948,6 +1019,13 @@ class Fn:
             env2 = dict(env)
             env2[a] = ("list", ("list", tv))
             return self.wrap(bi + bv, "%s <- py_append_at %s %s %s ;;\n  %s" % (cname(a), cname(a), ci, cv, nxt(env2)))
+        if isinstance(s, ast.Expr) and isinstance(s.value, ast.Call) and isinstance(s.value.func, ast.Attribute) \
+                and isinstance(s.value.func.value, ast.Name) and isinstance(env.get(s.value.func.value.id), tuple) \
+                and env[s.value.func.value.id][0] == "record" and s.value.func.attr in self.methods_of(env[s.value.func.value.id]) \
+                and not s.value.args and not s.value.keywords:
+            # x.method()  where method is a translated mutating method: it returns the updated x
+            a = s.value.func.value.id
+            return "%s <- %s %s ;;\n  %s" % (cname(a), fname(self.methods_of(env[a])[s.value.func.attr]), cname(a), nxt(env))
         if isinstance(s, ast.Expr) and isinstance(s.value, ast.Call) and isinstance(s.value.func, ast.Attribute) \
                 and isinstance(s.value.func.value, ast.Name) and s.value.func.value.id in env:
             a = s.value.func.value.id
@@ -987,40 +1065,61 @@ class Fn:
                     c, self.block(s.body, env, self.no_fall), self.block(s.orelse, env, self.no_fall)))
             names = [n for n in self.assigned(s.body + s.orelse)]
             envs = []
-
             joined = {}
 
             def kk(e2):
                 envs.append(e2)
-                for n in names:
-                    if n not in e2:
-                        raise Unsupported("%s is not bound on every path of the if" % n)
                 if not joined:
-                    return "Ret %s" % self.state_pat(names)[0]
+                    return "Ret tt"      # first pass: only the environments at the join are collected
                 # second pass: an int that meets a float at the join converts exactly
                 parts = [("(of_int %s)" % cname(n)) if (joined[n] == "F" and e2[n] == "int") else cname(n) for n in names]
+                if not parts:
+                    return "Ret tt"
                 return "Ret %s" % (parts[0] if len(parts) == 1 else "(" + ", ".join(parts) + ")")
             saved_tmp = self.tmp
-            cb = self.block(s.body, env, kk)
-            ce = self.block(s.orelse, env, kk)
+            saved_fuel = self.uses_fuel
+            self.block(s.body, env, kk)
+            self.block(s.orelse, env, kk)
+            # names bound on some paths only stay local to their branch (a later use is then an unknown name: fail closed)
+            names = [n for n in names if all(n in e2 for e2 in envs)]
             env2 = dict(env)
-            need_second = False
             for n in names:
                 ts = {repr(e2[n]) for e2 in envs}
                 if ts == {repr("F"), repr("int")}:
                     joined[n] = "F"
-                    need_second = True
                 elif len(ts) != 1:
                     raise Unsupported("%s has different types on the two paths" % n)
                 else:
                     joined[n] = envs[0][n]
                 env2[n] = joined[n]
-            if need_second:
-                self.tmp = saved_tmp
-                envs.clear()
-                cb = self.block(s.body, env, kk)
-                ce = self.block(s.orelse, env, kk)
+            if not names:
+                joined["_"] = None
+            self.tmp = saved_tmp
+            self.uses_fuel = saved_fuel
+            envs.clear()
+            cb = self.block(s.body, env, kk)
+            ce = self.block(s.orelse, env, kk)
             return self.wrap(b, "%s <- (if %s then\n  %s\n  else\n  %s) ;;\n  %s" % (self.state_pat(names)[1], c, cb, ce, nxt(env2)))
+        if isinstance(s, ast.For) and not s.orelse and isinstance(s.target, ast.Name) and isinstance(s.iter, ast.Attribute) \
+                and isinstance(s.iter.value, ast.Name) and isinstance(env.get(s.iter.value.id), tuple) and env[s.iter.value.id][0] == "record" \
+                and len(s.body) == 1 and isinstance(s.body[0], ast.Assign) and len(s.body[0].targets) == 1 \
+                and isinstance(s.body[0].targets[0], ast.Attribute) and isinstance(s.body[0].targets[0].value, ast.Name) \
+                and s.body[0].targets[0].value.id == s.target.id:
+            # for item in x.items: item.prop = v   - every element of the list field is updated through its setter
+            a = s.iter.value.id
+            rt_ = env[a]
+            fld = s.iter.attr
+            ft = rt_[2].get(fld)
+            prop = s.body[0].targets[0].attr
+            if not (isinstance(ft, tuple) and ft[0] == "list" and isinstance(ft[1], tuple) and ft[1][0] == "record" and prop in self.setters_of(ft[1])):
+                raise Unsupported("loop that mutates its items: %s" % ast.unparse(s.body[0]))
+            bv, cv, tv = self.expr(s.body[0].value, env)
+            if bv:
+                raise Unsupported("effects in the stored value")
+            v = self.fresh()
+            return "%s <- mapM (fun %s => %s %s %s) (%s%s %s) ;;\n  let %s := (set_%s%s %s %s) in\n  %s" % (
+                v, cname(s.target.id), fname(self.setters_of(ft[1])[prop]), cname(s.target.id), cv, rt_[3], fld, cname(a),
+                cname(a), rt_[3], fld, cname(a), v, nxt(env))
         if isinstance(s, ast.For):
             if s.orelse:
                 raise Unsupported("for-else")
@@ -1127,22 +1226,28 @@ class Fn:
             raise Unsupported("non-literal default value")
         # (literal defaults only matter to callers that omit the argument; the translated function takes every parameter)
         deco = [ast.unparse(d) for d in f.decorator_list]
-        if any(d != "functools.cache" and not d.startswith("numba_guard.njit(") for d in deco):
+        if any(d != "functools.cache" and not d.startswith("numba_guard.njit(") and not d.endswith(".setter") for d in deco):
             raise Unsupported("decorator %s" % deco)
         env = {}
         params = []
         for arg in a.args:
-            t = ann_type(arg.annotation, self.overrides, (f.name, arg.arg))
+            t = ann_type(arg.annotation, self.overrides, (self.key, arg.arg))
             env[arg.arg] = t
             params.append("(%s : %s)" % (cname(arg.arg), ty_coq(t)))
-        self.ret = ann_type(f.returns, self.overrides, (f.name, "return"))
+        self.ret_self = self.overrides.get((self.key, "return")) == "SELF"
+        if self.ret_self:
+            self.ret = env[a.args[0].arg]
+        else:
+            self.ret = ann_type(f.returns, self.overrides, (self.key, "return"))
 
         def kend(env2):
+            if self.ret_self:
+                return "Ret %s" % cname(a.args[0].arg)     # a mutating method: the updated object is the result
             raise Unsupported("function may end without return")
         body = self.block(f.body, env, kend)
         if self.uses_fuel:
             params = ["(fuel : nat)"] + params
-        return "Definition %s %s : res %s :=\n  %s." % (fname(f.name), " ".join(params), ty_coq(self.ret), body)
+        return "Definition %s %s : res %s :=\n  %s." % (fname(self.key), " ".join(params), ty_coq(self.ret), body)
 
 
 # module -> (source file, ordered function list, type overrides)
@@ -1243,6 +1348,21 @@ TARGETS = {
                               "point_labels": ("list", "int")}, "rm_", "rp_model"),
                              ("_move_random_points", "return"): ("list", "int")}),
 }
+MS_CLUSTER = ("record", "ms_cluster", {"_member_points": ("list", "int"), "member_points": ("alias", "_member_points")}, "mc_", "ms_cluster",
+                  {"member_points": "ClusterParameters.member_points@setter"}, {})
+MS_STATE = ("record", "ms_state", {"_point_labels": ("list", "int"), "point_labels": ("alias", "_point_labels"),
+                                               "clusters": ("list", MS_CLUSTER),
+                                               "arguments": ("record", "ms_args", {"num_clusters": "int"}, "ma_", "ms_args")}, "ms_", "ms_state",
+                 {}, {"_update_cluster_membership": "ModelState._update_cluster_membership"})
+TARGETS["model_state"] = ("containers/model_state.py",
+                          ["ClusterParameters.member_points@setter", "ModelState._update_cluster_membership", "ModelState.point_labels@setter"],
+                          {("ClusterParameters.member_points@setter", "self"): MS_CLUSTER,
+                           ("ClusterParameters.member_points@setter", "new_members"): ("list", "int"),
+                           ("ClusterParameters.member_points@setter", "return"): "SELF",
+                           ("ModelState._update_cluster_membership", "self"): MS_STATE,
+                           ("ModelState._update_cluster_membership", "return"): "SELF",
+                           ("ModelState.point_labels@setter", "self"): MS_STATE,
+                           ("ModelState.point_labels@setter", "return"): "SELF"})
 # per kernel module: extra imports, extra section variables, and calls rendered as section variables / imported definitions
 KERNEL_MODULES = {
     "cluster_label_assignment": {"imports": "", "vars": "", "externs": {}},
@@ -1367,6 +1487,15 @@ def translate_module(mod, src_root):
     path = os.path.join(src_root, rel)
     tree = ast.parse(open(path).read())
     funcs = {n.name: n for n in tree.body if isinstance(n, ast.FunctionDef)}
+    for cls in tree.body:
+        if isinstance(cls, ast.ClassDef):
+            for n in cls.body:
+                if isinstance(n, ast.FunctionDef):
+                    decos = [ast.unparse(d) for d in n.decorator_list]
+                    if any(d.endswith(".setter") for d in decos):
+                        funcs["%s.%s@setter" % (cls.name, n.name)] = n
+                    elif "property" not in decos:
+                        funcs["%s.%s" % (cls.name, n.name)] = n
     sigs = {}
     if mod in KERNEL_MODULES:
         km = KERNEL_MODULES[mod]
@@ -1382,7 +1511,7 @@ def translate_module(mod, src_root):
             continue
         node = funcs[name]
         try:
-            fn = Fn(mod, node, sigs, overrides, km["externs"])
+            fn = Fn(mod, node, sigs, overrides, km["externs"], key=name)
             text = fn.translate()
             at = [ann_type(a.annotation, overrides, (name, a.arg)) for a in node.args.args]
             sigs[name] = (at, fn.ret, [a.arg for a in node.args.args])
